@@ -153,11 +153,11 @@ func genHist(c *Ctx, which string) {
 		c.emit(opName, []string{hb.hist()}, r, true, "directed-"+histClass(r))
 	}
 	// deep chains of template calls (t0 -> t1 -> … -> leaf): executing a member in the middle first must not change what
-	// the head gives. The model's analysis is cubic in the chain length, so the long chain runs in the thorough tier only.
+	// the head gives. The model's analysis is cubic in the chain length, so the long chain runs in the thorough tier of C06 only (the model caps the execution depth at 2000).
 	if which == "C06" || which == "C05" || which == "" {
 		lens := []int{40, 260}
-		if c.thorough {
-			lens = []int{40, 260, 1100}
+		if c.thorough && which == "C06" {
+			lens = []int{40, 260, 1050}
 		}
 		for _, n := range lens {
 			for li, leaf := range []string{"<b title=\"{{.X}}\">{{.Y}}</b>", "<a href=\"{{.X}}", "<b>{{.X}}</b>"} {
@@ -181,7 +181,9 @@ func genHist(c *Ctx, which string) {
 				data := &Val{Kind: "m", Keys: []string{"X", "Y"}, M: map[string]*Val{"X": {Kind: "s", S: "a\"b<"}, "Y": {Kind: "s", S: "<x&y>"}}}
 				hb.add(Step{Op: "exect", H: 0, Name: fmt.Sprintf("t%d", n/2), Data: data})
 				hb.add(Step{Op: "exect", H: 0, Name: "t0", Data: data})
-				hb.add(Step{Op: "exect", H: 0, Name: fmt.Sprintf("t%d", n-1), Data: data})
+				if n < 1000 {
+					hb.add(Step{Op: "exect", H: 0, Name: fmt.Sprintf("t%d", n-1), Data: data})
+				}
 				r := hb.result()
 				c.emit(opName, []string{hb.hist()}, r, true, fmt.Sprintf("chain-%d-", n)+histClass(r))
 			}
